@@ -133,6 +133,15 @@ func init() {
 			return structure{ex.C.Const(64, 0), ex.C.Const(64, uint64(ex.fakeTime)), (*value)(nil)}
 		},
 		"time.Sleep": nop,
+		// timers never fire by themselves (timer goroutines are concurrency, outside every claim);
+		// harnesses that need expiries replace these with their own fakes
+		"time.AfterFunc": func(ex *Exec, fr *frame, a []value) value { return ex.newTimer(false) },
+		"time.NewTimer":  func(ex *Exec, fr *frame, a []value) value { return ex.newTimer(true) },
+		"time.After": func(ex *Exec, fr *frame, a []value) value {
+			return &channel{cap: 1}
+		},
+		"(*time.Timer).Stop":  func(ex *Exec, fr *frame, a []value) value { return ex.C.Bool(true) },
+		"(*time.Timer).Reset": func(ex *Exec, fr *frame, a []value) value { return ex.C.Bool(true) },
 		"time.runtimeNano": func(ex *Exec, fr *frame, a []value) value { return ex.C.Const(64, uint64(ex.fakeTime)) },
 
 		// --- internal/bytealg ---
@@ -587,3 +596,18 @@ func fmtErrorf(ex *Exec, fr *frame, a []value) value {
 }
 
 var _ = fmt.Sprint
+
+// newTimer builds a *time.Timer that never fires.
+func (ex *Exec) newTimer(withChan bool) value {
+	tp := ex.P.Prog.ImportedPackage("time")
+	if tp == nil || tp.Type("Timer") == nil {
+		panic(engineErr("time.Timer type not loaded"))
+	}
+	v := ex.zero(tp.Type("Timer").Type())
+	if withChan {
+		v.(structure)[0] = &channel{cap: 1}
+	}
+	cell := new(value)
+	*cell = v
+	return cell
+}
